@@ -201,6 +201,27 @@ def check_rigid(rep, shard):
                     eq(rep, 'rigid.then', lambda: F(d >> e), lambda: F(d) >> F(e), inp + ' ; %r' % (e,))
 
 
+def check_tensor_functor_types(rep):
+    """the rigid functors of the tensor class (objects to lists of dimensions): adjoint types go to the adjoints of the
+    images (the reversed list) for every winding number, tensors of types to the concatenation"""
+    from discopy import tensor
+    Dim = tensor.Dim
+    x, y = rigid.Ty('x'), rigid.Ty('y')
+    for images in ({x: Dim(2, 3), y: Dim(5)}, {x: Dim(2, 3, 4), y: Dim(3, 2)}, {x: Dim(2), y: Dim()}):
+        F = tensor.Functor(images, {})
+        for t in (x, y, x @ y, y @ x @ x):
+            want = [n for o in t for n in images[rigid.Ty(o)]]
+            variants = {'t': (t, want), 't.l': (t.l, want[::-1]), 't.r': (t.r, want[::-1]), 't.l.l': (t.l.l, want), 't.r.r': (t.r.r, want),
+                        't.l.l.l': (t.l.l.l, want[::-1]), 't.r.r.r': (t.r.r.r, want[::-1]), 't.l.r': (t.l.r, want), 't @ t.r.r': (t @ t.r.r, want + want),
+                        't.l @ t.r.r': (t.l @ t.r.r, want[::-1] + want)}
+            for nm, (ty, dims) in variants.items():
+                inp = 'tensor.Functor(%r) on %s with t = %r' % (images, nm, t)
+                rep.case(('tensor functor type', inp))
+                got = common.outcome(lambda: list(F(ty)))
+                if got != ('ok', dims):
+                    rep.fail('C04:tensor.adjoint_types', 'F(%s) = %r, expected the dimensions %r' % (nm, got, dims), inp)
+
+
 def run(tier, seed=0, shard=(0, 1)):
     from discopy.monoidal import Ty, Box, Swap
     max_boxes = 2 if tier == 'quick' else 3
@@ -219,4 +240,6 @@ def run(tier, seed=0, shard=(0, 1)):
         check_rigid(rep, shard)
     if shard[0] == 2 % shard[1]:
         check_swap_dagger(rep)
+    if shard[0] == 3 % shard[1]:
+        check_tensor_functor_types(rep)
     return rep.result()
